@@ -16,8 +16,10 @@
 
 import builtins
 import contextlib
+import copy
 import marshal
 import math
+import numbers
 import types
 
 import numpy as np
@@ -414,7 +416,16 @@ class CachedFcn(UserFcn):
             return [CachedFcn._snapshot(v) for v in x]
         if isinstance(x, tuple):
             return tuple(CachedFcn._snapshot(v) for v in x)
-        return x
+        if x is None or isinstance(x, (numbers.Number, basestring, bytes, np.generic)):
+            return x
+        # any other object (a pandas DataFrame, an event object with attributes) may be refilled in place as well
+        try:
+            return copy.deepcopy(x)
+        except Exception:
+            return CachedFcn._uncopyable
+
+    # stands for an argument that could not be copied: equal to nothing, so the call is evaluated every time
+    _uncopyable = object()
 
     @staticmethod
     def _same(x, y):
@@ -430,9 +441,10 @@ class CachedFcn(UserFcn):
             return bool(x == y and np.signbit(x) == np.signbit(y))
         if isinstance(x, (list, tuple)):
             return len(x) == len(y) and all(CachedFcn._same(a, b) for a, b in zip(x, y))
-        if x is y:
-            return True
+        if x is None or isinstance(x, (numbers.Number, basestring, bytes, np.generic)):
+            return bool(x == y)
         try:
+            # y is a private copy: objects that do not define == compare by identity and never match
             return bool(np.array_equal(x, y))
         except Exception:
             # not comparable, so not a cache hit
